@@ -18,16 +18,18 @@ ASSUMPTIONS = ["values annotated on non-note tokens (NaN or imputed) are not dem
                "monotonicity is demanded only for streams produced by tokenise"]
 REQUIRED_FLAGS = ["bar_in_partly_filled_bar", "signature_mid_bar_ignored", "signature_at_bar_start", "bare_running_value_token",
                   "rest_beyond_capacity", "note_after_rest", "imputation_on", "imputation_off", "graph_edge_replayed",
-                  "tokenise_stream_checked", "pad_start_stop", "graph_probe"] + ["pitch_class_%d" % i for i in range(12)]
+                  "tokenise_stream_checked", "pad_start_stop", "graph_probe", "odd_resolution"] + ["pitch_class_%d" % i for i in range(12)]
 
 FL = list(itertools.product((True, False), repeat=4))   # running, fuse_track, fuse_value, fuse_velocity
 _TOKS = {}
 
 
-def tok(fl, nt=2, small=True):
-    k = (tuple(fl), nt, small)
+def tok(fl, nt=2, small=True, ppqn=24):
+    k = (tuple(fl), nt, small, ppqn)
     if k not in _TOKS:
         kw = dict(pitch_range=(60, 61), note_values=[12, 24], step_sizes=[12, 24], time_signature_range=(3, 4)) if small else {}
+        if ppqn != 24:
+            kw["ppqn"] = ppqn
         _TOKS[k] = Tok(num_tracks=nt, velocity_bins=1, flag_running_values=fl[0], flag_fuse_track=fl[1],
                        flag_fuse_value=fl[2], flag_fuse_velocity=fl[3], **kw)
     return _TOKS[k]
@@ -52,6 +54,12 @@ def units(ctx):
         yield ("pieces", fi)
     for fi in (0, 15):
         yield ("pitches", fi)
+    # an odd resolution (15 ticks per quarter): bar capacities that are not multiples of the signature numerator
+    for fi in (0, 15):
+        t = tok(FL[fi], nt=1, ppqn=15)
+        for a in t.dictionary:
+            yield ("tree15", fi, a)
+        yield ("graph15", fi)
     if ctx["tier"] != "quick":
         for fi in (0, 15):
             t = tok(FL[fi], nt=1)
@@ -68,9 +76,12 @@ def fold(x):
 # ---- reference clock model -------------------------------------------------------------------------
 
 class Clock:
-    __slots__ = ("time", "bar", "total", "rem")
+    __slots__ = ("time", "bar", "total", "rem", "ppqn")
 
-    def __init__(self, time=0, bar=0, total=96, rem=96):
+    def __init__(self, time=0, bar=0, total=None, rem=None, ppqn=24):
+        self.ppqn = ppqn
+        if total is None:
+            total = rem = int(ppqn * 4 * 8 / 8)      # the default signature is 8/8
         self.time, self.bar, self.total, self.rem = time, bar, total, rem
 
     def key(self):
@@ -78,7 +89,7 @@ class Clock:
 
     def step(self, token):
         """returns (annotation_time, annotation_time_in_bar, pitch or None, facts) and advances"""
-        c = Clock(*self.key())
+        c = Clock(*self.key(), ppqn=self.ppqn)
         facts = []
         at, ab = self.time, self.bar
         pitch = None
@@ -104,7 +115,7 @@ class Clock:
                 facts.append("signature_mid_bar_ignored")
             else:
                 facts.append("signature_at_bar_start")
-                c.total = int(24 * 4 * int(parts[0][1]) / int(parts[0][2]))
+                c.total = int(self.ppqn * 4 * int(parts[0][1]) / int(parts[0][2]))
                 c.rem = c.total
         elif kinds[0] in ("trk", "val", "vel"):
             facts.append("bare_running_value_token")
@@ -182,7 +193,7 @@ def check_node(t, stream, imp, clock_before, parent_info, parent_notes):
 
 def replay_stream(t, stream, imp):
     """oracle for the LAST token of a stream, everything recomputed from scratch (replay, graph edges, probes)"""
-    clock = Clock()
+    clock = Clock(ppqn=t.ppqn)
     for tk in stream[:-1]:
         clock = clock.step(tk)[0]
     parent = list(stream[:-1])
@@ -205,7 +216,7 @@ def probes(t, clock):
 def run_tree(acc, t, cfgdesc, imp, prefix, maxlen):
     # DFS carrying the parent's clock / info / notes
     vocab = list(t.dictionary)
-    clock, info, notes = Clock(), None, collections.Counter()
+    clock, info, notes = Clock(ppqn=t.ppqn), None, collections.Counter()
     stack = []
     # establish the prefix
     for i in range(len(prefix)):
@@ -246,13 +257,13 @@ def record(acc, cfgdesc, imp, stream, viols, facts):
 def run_graph(acc, t, cfgdesc, imp, horizon):
     """BFS over reference-clock states; one representative stream per state; every edge replayed on the implementation"""
     vocab = list(t.dictionary)
-    seen = {Clock().key(): []}
+    seen = {Clock(ppqn=t.ppqn).key(): []}
     frontier = [[]]
     edges = 0
     while frontier:
         nxt = []
         for rep in frontier:
-            clock = Clock()
+            clock = Clock(ppqn=t.ppqn)
             for tk in rep:
                 clock = clock.step(tk)[0]
             for tk in vocab:
@@ -343,6 +354,13 @@ def run_unit(unit, acc, ctx):
     elif kind == "tree6":
         _, fi, a, b = unit
         run_tree(acc, tok(FL[fi], nt=1), {"fl": list(FL[fi]), "nt": 1, "small": True}, False, [a, b], 6)
+    elif kind == "tree15":
+        _, fi, a = unit
+        run_tree(acc, tok(FL[fi], nt=1, ppqn=15), {"fl": list(FL[fi]), "nt": 1, "small": True, "ppqn": 15}, False, [a], ctx["maxlen"])
+        acc.flags["odd_resolution"] += 1
+    elif kind == "graph15":
+        run_graph(acc, tok(FL[unit[1]], nt=1, ppqn=15), {"fl": list(FL[unit[1]]), "nt": 1, "small": True, "ppqn": 15}, False,
+                  (2 * 60) if ctx["tier"] == "quick" else 3 * 60)
     elif kind == "graph":
         _, fi, imp = unit
         run_graph(acc, tok(FL[fi]), {"fl": list(FL[fi]), "nt": 2, "small": True}, imp, ctx["horizon"])
@@ -362,7 +380,7 @@ def run_unit(unit, acc, ctx):
 
 
 def replay(case, ctx):
-    t = tok(tuple(case["fl"]), case["nt"], case["small"])
+    t = tok(tuple(case["fl"]), case["nt"], case["small"], case.get("ppqn", 24))
     if "stream" in case:
         return replay_stream(t, case["stream"], case["impute"])[0]
     acc = core.Acc()
